@@ -325,6 +325,30 @@ func runC12(p *Prog, r *Report) {
 	checkAwaitChain(p, r, closes, targets, deferredFn)
 	checkGuardedHelpers(p, r)
 	checkLogResults(p, r, "C12.R4")
+	if r.Prop != "C12" {
+		return // imported by another property: only the channel discipline above is wanted
+	}
+	// the engines' completion contract on the early paths (C08.R2: both channels closed when the generator
+	// fails or the scan is already over) and the SOCKS5 watchdog that releases a worker parked in a read
+	// (C09.R4), re-evaluated: both decide whether Ctrl-C ends the scan
+	sub8 := NewReport("C12x", "quick")
+	runC08(p, sub8)
+	for _, o := range sub8.Obs {
+		if o.Rule == "C08.R2" {
+			o2 := *o
+			o2.Rule = "C12.R3"
+			r.Obs = append(r.Obs, &o2)
+		}
+	}
+	sub9 := NewReport("C12x", "quick")
+	runC09(p, sub9)
+	for _, o := range sub9.Obs {
+		if o.Rule == "C09.R4" {
+			o2 := *o
+			o2.Rule = "C12.R3"
+			r.Obs = append(r.Obs, &o2)
+		}
+	}
 }
 
 // spawnedBy: goroutine g is (transitively) started by function f on some path.
